@@ -18,7 +18,15 @@ fn envs<V: Full>() -> Vec<Mode> {
 }
 
 pub fn passwords() -> Vec<Vec<u8>> {
-    vec![b"".to_vec(), b"p".to_vec(), vec![0u8; 8], b"correct horse battery staple".to_vec(), (0..300u32).map(|i| (i * 13 + 1) as u8).collect()]
+    let mut v = vec![b"".to_vec(), b"p".to_vec(), vec![0u8; 8], b"correct horse battery staple".to_vec(), (0..300u32).map(|i| (i * 13 + 1) as u8).collect::<Vec<u8>>()];
+    // endings a "helpful" trim would touch, and lengths around the HMAC block sizes (64, 128)
+    for w in [&b"trailing space "[..], b"tab\t", b"two lines\n\n", b" ", b"crlf\r\n", b"\n", b" leading", b"nul\0"] {
+        v.push(w.to_vec());
+    }
+    for l in [63usize, 64, 65, 127, 128, 129] {
+        v.push((0..l).map(|i| b'a' + (i % 26) as u8).collect());
+    }
+    v
 }
 
 #[derive(Clone)]
@@ -108,7 +116,7 @@ fn add<V: Full>(prop: &mut Property, ctx: &Ctx) {
             Sub::new(
                 format!("{name}/pbkw"),
                 product(&rad),
-                format!("{} wrapped keys x {} passwords (empty, 1 byte, NULs, phrase, 300 bytes) x {} cost settings inside the budget x {} RNG environments", rad[0], rad[1], rad[2], rad[3]),
+                format!("{} wrapped keys x {} passwords (empty, 1 byte, NULs, phrase, 300 bytes, whitespace / NUL endings, lengths 63..65 and 127..129) x {} cost settings inside the budget x {} RNG environments", rad[0], rad[1], rad[2], rad[3]),
                 move |idx, describe| {
                     let ix = unrank(idx, &rad);
                     let (w, pw, cost, env) = (&wk[ix[0]], &pws[ix[1]], costs[ix[2]], &envs[ix[3]]);
